@@ -65,6 +65,7 @@ class REPEX_state:
             "keep_traj_fnames", []
         )
         # set rng
+        self._rgen_restored = False
         if "restarted_from" in config["current"]:
             self.set_rgen()
         else:
@@ -225,10 +226,18 @@ class REPEX_state:
         In case a crash, we pick lock locked from previous simulation.
         """
         if not self.locked0:
-            if "restarted_from" in self.config["current"]:
-                # get the same pick() as pre-restart. Need to set it again
-                # because current self.rgen was used for calculating self.prob.
-                self.set_rgen()
+            if (
+                "restarted_from" in self.config["current"]
+                and not self._rgen_restored
+            ):
+                # get the same pick() as pre-restart. Need to set the state
+                # again because current self.rgen was used for calculating
+                # self.prob. Only once, and without touching the spawn
+                # counter, so that every job keeps its own random stream.
+                self.rgen.bit_generator.state = self.config["current"][
+                    "rng_state"
+                ]
+                self._rgen_restored = True
             return self.pick()
 
         enss = []
@@ -402,8 +411,12 @@ class REPEX_state:
 
     def set_rgen(self):
         """Set numpy random generator state from restart."""
+        # streams already handed out: one per completed move plus one per
+        # job that was in flight when the restart file was written
+        n_spawned = self.cstep + len(self.config["current"].get("locked", []))
         seed_sequence = np.random.SeedSequence(
-            entropy=0, n_children_spawned=self.cstep
+            entropy=self.config["simulation"]["seed"],
+            n_children_spawned=n_spawned,
         )
         self.rgen = default_rng(seed_sequence)
         self.rgen.bit_generator.state = self.config["current"]["rng_state"]
